@@ -51,11 +51,22 @@ struct Cell {
     seed_output: bool,
     arch: ArchKind,
     http: bool,
+    /// `--seed` arguments: 0 none, 1 an unrelated seed file, 2 the OUTPUT path itself,
+    /// 3 both. Seeds never turn a refusal into permission.
+    seeds: u8,
 }
 
 impl Cell {
     fn name(&self) -> String {
-        format!("{:?}/force={}/seed_output={}/{:?}/{}", self.out, self.force, self.seed_output, self.arch, if self.http { "http" } else { "local" })
+        format!(
+            "{:?}/force={}/seed_output={}/{:?}/{}{}",
+            self.out,
+            self.force,
+            self.seed_output,
+            self.arch,
+            if self.http { "http" } else { "local" },
+            ["", "/seed=file", "/seed=OUTPUT", "/seed=file+OUTPUT"][self.seeds as usize]
+        )
     }
     /// (refusal expected, header/archive refusal)
     fn expectation(&self) -> (bool, bool) {
@@ -111,7 +122,22 @@ fn all_cells() -> Vec<Cell> {
                     if out == OutState::AppearsDuringHeaderFetch && !http {
                         continue;
                     }
-                    v.push(Cell { out, force, seed_output, arch, http });
+                    v.push(Cell { out, force, seed_output, arch, http, seeds: 0 });
+                }
+            }
+        }
+    }
+    // Seeds given as well: an existing output without --force-create / --seed-output is
+    // refused whatever the seeds are (including the output itself named as a seed);
+    // an absent output with a seed file behaves as without.
+    for out in [OutState::Regular(0), OutState::Regular(1), OutState::Regular(2), OutState::Absent] {
+        for arch in archs {
+            for http in [false, true] {
+                for seeds in [1u8, 2, 3] {
+                    if out == OutState::Absent && seeds != 1 {
+                        continue;
+                    }
+                    v.push(Cell { out, force: false, seed_output: false, arch, http, seeds });
                 }
             }
         }
@@ -221,12 +247,22 @@ fn clone_cell(rep: &Report, idx: usize, cell: &Cell, seed: u64) -> Option<String
         } else {
             None
         };
+        let mut seed_args = Vec::new();
+        if cell.seeds & 1 != 0 {
+            let sp = dir.join("seed.bin");
+            std::fs::write(&sp, gen::apply_edit(&mut rng, &source, gen::Edit::Swap)).unwrap();
+            seed_args.push(sp);
+        }
+        if cell.seeds & 2 != 0 {
+            seed_args.push(out.clone());
+        }
         let spec = CloneSpec {
             archive: server.as_ref().map(|s| s.url()).unwrap_or_else(|| p(&apath)),
             output: out.clone(),
             force: cell.force,
             seed_output: cell.seed_output,
             verify_header: verify,
+            seeds: seed_args,
             ..Default::default()
         };
         let mut run = Run::new(&dir, "clone", scn::clone_args(&spec));
